@@ -315,6 +315,8 @@ class Python311InstrumentationInstructionsGenerator(
                     cf.ArtificialInstr("SWAP", 3, lineno=lineno),
                     cf.ArtificialInstr("SWAP", 2, lineno=lineno),
                 )
+            case InstrumentationSetupAction.COPY_THIRD:
+                return (cf.ArtificialInstr("COPY", 3, lineno=lineno),)
             case InstrumentationSetupAction.COPY_THIRD_SHIFT_DOWN_THREE:
                 return (
                     cf.ArtificialInstr("COPY", 3, lineno=lineno),
@@ -398,6 +400,7 @@ class Python311InstrumentationInstructionsGenerator(
                 | InstrumentationSetupAction.COPY_SECOND
                 | InstrumentationSetupAction.COPY_SECOND_SHIFT_DOWN_TWO
                 | InstrumentationSetupAction.COPY_SECOND_SHIFT_DOWN_THREE
+                | InstrumentationSetupAction.COPY_THIRD
                 | InstrumentationSetupAction.COPY_THIRD_SHIFT_DOWN_THREE
                 | InstrumentationSetupAction.COPY_THIRD_SHIFT_DOWN_FOUR
                 | InstrumentationSetupAction.ADD_FIRST_TWO
